@@ -232,6 +232,18 @@ where
                 let op_idx = find_op_of_comma(&res).ok_or_else(|| {
                     exerr!("could not find operator for comma, could be operator with more than 2 args (not supported), missing operator, or paren mismatch",)
                 })?;
+                // An operator in function call syntax stands where an operand is expected.
+                // Otherwise, it is an infix operator or it has been used by a previous comma.
+                if op_idx > 0
+                    && matches!(
+                        res[op_idx - 1],
+                        ParsedToken::Num(_) | ParsedToken::Var(_) | ParsedToken::Paren(Paren::Close)
+                    )
+                {
+                    return Err(exerr!(
+                        "operator at comma is not in function call syntax, could be operator with more than 2 args (not supported)",
+                    ));
+                }
                 let op_at_comma = mem::replace(&mut res[op_idx], ParsedToken::Paren(Paren::Open));
                 close_additional_paren_depths.push(open_paren_count - 1);
                 res.push(ParsedToken::Paren(Paren::Close));
